@@ -232,7 +232,7 @@ def run_case(case, ctx):
             with SgzReader(out) as r:
                 V = r.read_subplane(0, D.shape[0], 0, D.shape[1]) if r.is_2d else r.read_volume()
                 rr, rbs = r.rate, tuple(r.blockshape)
-            img = oracles.image(D, rr) if oracles.codec_min_ok(rr, D.ndim) and rr in oracles.VALID_RATES + [64] else None
+            img = oracles.image(D, rr) if oracles.codec_min_ok(rr, D.ndim) else None
             faithful = img is not None and V.shape == img.shape and V.tobytes() == img.tobytes()
             truth = {'shape': D.shape, 'data_image': img}
             if valid:
